@@ -158,7 +158,7 @@ def alphabet():
 
 def leaves():
     import pymbolic.primitives as p
-    return [p.Variable("a"), p.Variable("b"), 3, -3, 1.5, -0.5, 1e-10, 2e+20, 0, True]
+    return [p.Variable("a"), p.Variable("b"), 3, -3, 1.5, -0.5, 1e-10, 2e+20, 0, True, -0.0, 0.0, -1e-10]
 
 
 def gen_two_level():
@@ -267,6 +267,8 @@ def tree_cause(e):
     for n in all_nodes(e):
         if isinstance(n, p.Lookup) and isinstance(n.aggregate, int) and not isinstance(n.aggregate, bool) and n.aggregate >= 0:
             causes.add("attribute-of-int-literal")
+        if isinstance(n, float) and (n != n or n in (float("inf"), float("-inf"))):
+            causes.add("nonfinite-constant")
     return "+".join(sorted(causes))
 
 
@@ -303,13 +305,23 @@ def roundtrip(b, label, e, fns):
 def b_two(tier):
     b = BoundedRun("parent-child", rule="for every (parent type, child position, child type) of the printable alphabet (33 parent forms incl. n-ary, comparison operators, call "
                    "function / argument / keyword positions, subscript aggregate / index / tuple index, slices, tuples as arguments and indices) with every child form and every "
-                   "leaf kind (variable, positive / negative int, positive / negative float, floats whose repr has an exponent sign, 0, True), and every binary child "
+                   "leaf kind (variable, positive / negative int, positive / negative float, floats whose repr has an exponent sign, signed zeros, 0, True; the non-finite floats inf, -inf, nan), and every binary child "
                    "form whose own first and last operands are composite (text beginning and ending with its operands' parentheses): parse(str(e)) equals e after "
                    "flattening nested sums/products (constants compared with their type), and str(parse(str(e))) == str(e); where the trees differ the values are compared "
                    "over {-2,1,3}^3 too", bound="depth 2, exhaustive over the alphabet", functions=["StringifyMapper.map_*", "Parser"])
     fns = ["StringifyMapper", "Parser"]
     for label, e in gen_two_level():
         roundtrip(b, label, e, fns)
+    # non-finite float constants in every child position (two-level trees only, so that no other cause can mix in)
+    A = alphabet()
+    import pymbolic.primitives as p
+    fill = [p.Variable("a"), p.Variable("b"), p.Variable("c")]
+    for pn, (par, pb) in A.items():
+        for pos in range(par):
+            for lf in (float("inf"), float("-inf"), float("nan")):
+                kids = [fill[(i + 1) % 3] for i in range(par)]
+                kids[pos] = lf
+                roundtrip(b, f"{pn}[{pos}]<-{lf!r}", pb(kids), fns)
     for label, e in gen_composite_children():
         roundtrip(b, label, e, fns)
     return b
